@@ -58,6 +58,7 @@ func cycleT1(args []string) error {
 	var fails []fail
 	events := 0
 	var axes []string
+	shapes := map[string]int{}
 	encs := []string{"none", "std-subset", "custom", "holes"}
 	zones := []string{"none", "utc", "named", "unnamed"}
 	for i := 0; i < n; i++ {
@@ -74,6 +75,7 @@ func cycleT1(args []string) error {
 			o.NGlyphs = 300
 		}
 		f := fontgen.Generate(rng, o)
+		fontgen.SegmentShapes(f, shapes)
 		stim := fmt.Sprintf("font #%d seed %d %+v", i, seed, o)
 		axes = append(axes, fmt.Sprintf("%+v", o))
 		pa := fontgen.Project(f)
@@ -94,5 +96,16 @@ func cycleT1(args []string) error {
 			}
 		}
 	}
-	return emit(map[string]any{"events": events, "fonts": n, "failures": fails, "axes": axes[:min(6, len(axes))]})
+	return emit(map[string]any{"events": events, "fonts": n, "failures": fails, "axes": axes[:min(6, len(axes))],
+		"shapes": shapes, "shapes_missing": missingShapes(shapes)})
+}
+
+func missingShapes(shapes map[string]int) []string {
+	miss := []string{}
+	for _, s := range fontgen.AllShapes() {
+		if shapes[s] == 0 {
+			miss = append(miss, s)
+		}
+	}
+	return miss
 }
